@@ -251,4 +251,4 @@ def strategy(tier):
     return st.fixed_dictionaries({"shots": shots, "strict_names": st.booleans(), "strict_lengths": st.booleans()})
 
 
-SUBS = [Sub("shots", check, strategy=strategy, nontrivial=nontrivial, classes=classes, n_quick=2500, n_thorough=25000)]
+SUBS = [Sub("shots", check, fuzz_runs=10000, strategy=strategy, nontrivial=nontrivial, classes=classes, n_quick=2500, n_thorough=25000)]
